@@ -1170,7 +1170,7 @@ def list_ops(w, mode, build):
         return f"{attr}{desc}"
 
     def news(k, count):
-        return [new(k + t, t) for t in range(count)]
+        return [new((k + t) % 48, t) for t in range(count)]  # k: an op argument, 0..47 (new_spec's domain)
 
     def append(b, c):
         item = new(c)
